@@ -100,11 +100,11 @@ def maxOf : List Q → Option Q
 
 def recallAtPrecision (l : List LS) (bound : Q) : Option Q :=
   let c := prCurve l
-  maxOf (((c.recall.zip c.precision).filter fun rp => decide (bound ≤ rp.2)).map (·.1))
+  maxOf (((c.recall.zip c.precision).filter fun (rp : Q × Q) => decide (bound ≤ rp.2)).map fun (rp : Q × Q) => rp.1)
 
 def bestThreshold (l : List LS) (r : Q) : Option Q :=
   let c := prCurve l
-  maxOf ((((c.thresholds ++ [-1]).zip c.recall).filter fun tr => tr.2 == r).map (·.1))
+  maxOf ((((c.thresholds ++ [-1]).zip c.recall).filter fun (tr : Q × Q) => tr.2 == r).map fun (tr : Q × Q) => tr.1)
 
 /-! ### multiclass / multilabel -/
 
